@@ -480,3 +480,72 @@ func TestC06LoginWindow(t *testing.T) {
 		ev.Case(evid.Hash("lw", option, when, flow), true, "login-window:"+when)
 	})
 }
+
+// TestC06GraceWindow: a disconnect request gives its target one second; if the target leaves by itself in that second
+// and a protected user logs in meanwhile, the delayed disconnect must not hit the protected user (whatever user id it
+// was given): it stays connected, listed and served, and its address is not banned.
+func TestC06GraceWindow(t *testing.T) {
+	ev := evid.New("C06", "TestC06GraceWindow")
+	defer ev.Flush()
+	rapid.Check(t, func(rt *rapid.T) {
+		option := rapid.IntRange(0, 2).Draw(rt, "option")
+		others := rapid.IntRange(0, 2).Draw(rt, "othersBefore")
+		flow := rapid.SampledFrom([]string{"123", "15"}).Draw(rt, "flow")
+		gap := rapid.SampledFrom([]time.Duration{0, time.Millisecond, 500 * time.Millisecond, 999 * time.Millisecond}).Draw(rt, "gap")
+		prot := hlref.AccessOf(hlref.PrivCannotBeDiscon, hlref.PrivReadChat)
+		inWorld(rt, hlsim.Options{Agreement: "a", Accounts: []hlsim.AccountSpec{acct("admin", "Admin", "adminpw", hlref.AccessOf(hlref.PrivDisconUser)), acct("plain", "Plain", "ppw", hlref.AccessOf(hlref.PrivReadChat)), {Login: "vip", Name: "Vip", Password: "vpw", Access: prot}}}, func(rt *rapid.T, w *hlsim.World) {
+			admin := loginAs(rt, w, "10.6.8.1:1", "admin", "adminpw", "admin")
+			for i := 0; i < others; i++ {
+				loginAs(rt, w, fmt.Sprintf("10.6.8.%d:1", 10+i), "plain", "ppw", fmt.Sprintf("other%d", i))
+			}
+			victim := loginAs(rt, w, "10.6.8.3:1", "plain", "ppw", "victim") // the newest arrival
+			vid := 2 + others
+			fs := []hlref.Field{fld(hlref.FUserID, hlref.BE16(vid))}
+			if option != 0 {
+				fs = append(fs, fld(hlref.FOptions, hlref.BE16(option)))
+			}
+			if !okReply(admin.Request(hlref.TranDisconnectUser, fs...)) {
+				rt.Fatalf("harness: disconnect request against an unprotected user refused")
+			}
+			victim.Close()
+			settle(gap)
+			v := w.Connect("10.6.8.2:1")
+			lo := hlsim.LoginOpts{Login: "vip", Password: "vpw"}
+			if flow == "123" {
+				lo.Name, lo.Icon = []byte("vip"), 1
+			} else {
+				lo.Version = hlref.BE16(190)
+			}
+			if v.Login(lo) == nil {
+				rt.Fatalf("harness: login of the protected user failed")
+			}
+			if flow == "15" && !okReply(v.Agreed([]byte("vip"), 1, 0, nil)) {
+				rt.Fatalf("harness: agreed refused")
+			}
+			settle(3 * time.Second)
+			if v.EOF() {
+				rt.Fatalf("the protected user, who logged in while a kicked user (option %d) was leaving, was disconnected", option)
+			}
+			if r := v.Request(hlref.TranKeepAlive); !okReply(r) {
+				rt.Fatalf("the protected user, who logged in while a kicked user (option %d) was leaving, is no longer served", option)
+			}
+			us, err := admin.UserList()
+			if err != nil {
+				rt.Fatalf("user list: %v", err)
+			}
+			found := false
+			for _, u := range us {
+				if string(u.Name) == "vip" || string(u.Name) == "Vip" {
+					found = true
+				}
+			}
+			if !found {
+				rt.Fatalf("the protected user, who logged in %s after a kicked user (option %d) hung up by itself, is no longer in the user list: %v", gap, option, us)
+			}
+			if b, _ := w.Bans.IsBanned("10.6.8.2"); b {
+				rt.Fatalf("the protected user's address was banned")
+			}
+		})
+		ev.Case(evid.Hash("grace", option, others, flow, gap), true, "grace-window")
+	})
+}
